@@ -758,8 +758,10 @@ class ExcelCompiler:
             self.range_todos.append(str(excel_data.address))
             new_nodes = build_range(excel_data)
             if ref_cell is not None:
-                # the reference depends on the range it refers to
+                # the reference depends on the range it refers to, and like
+                # other ranges its value is calced when the graph is built
                 new_nodes.append(ref_cell)
+                self.range_todos.append(str(address))
         else:
             new_nodes = build_cell(excel_data)
 
